@@ -519,20 +519,14 @@ class DicomStack(object):
 
         self._chk_congruent(meta)
 
-        self._phase_enc_dirs.add(meta.get('InPlanePhaseEncodingDirection'))
-        self._repetition_times.add(meta.get('RepetitionTime'))
-
         #Pull the info used for sorting
         slice_pos = dw.slice_indicator
-        self._slice_pos_vals.add(slice_pos)
         time_val = None
         if self._time_order:
             time_val = self._time_order.get_ordinate(meta)
-        self._time_vals.add(time_val)
         vector_val = None
         if self._vector_order:
             vector_val = self._vector_order.get_ordinate(meta)
-        self._vector_vals.add(vector_val)
 
         #Create a tuple with the sorting values
         sorting_tuple = (vector_val, time_val, slice_pos)
@@ -544,6 +538,13 @@ class DicomStack(object):
             sorting_tuple in self._sorting_tuples
            ):
             raise ImageCollisionError()
+
+        #The image is accepted, record its values
+        self._phase_enc_dirs.add(meta.get('InPlanePhaseEncodingDirection'))
+        self._repetition_times.add(meta.get('RepetitionTime'))
+        self._slice_pos_vals.add(slice_pos)
+        self._time_vals.add(time_val)
+        self._vector_vals.add(vector_val)
         self._sorting_tuples.add(sorting_tuple)
 
         #Create a NiftiWrapper for this input if possible
